@@ -61,7 +61,7 @@ def judge_pair(case) -> Verdict:
 @st.composite
 def pair_st(draw, tier):
     platform = draw(st.sampled_from(["ios", "nxos"]))
-    kmax = draw(st.sampled_from([4, 4, 4, 4, 4, 4, 7, 7, 9]))  # large expansions: the cover test may switch strategy
+    kmax = draw(st.sampled_from([4] * 24 + [7] * 5 + [9]))  # large expansions: the cover test may switch strategy
     top = draw(G.ace_st(platform, kmax=kmax, groups=False, empty_sets=False, seq=False, noise=False, established=False))
     bottom = draw(G.mutate_ace(top, platform, kmax=kmax, groups=False, empty_sets=False, established=False))
     if draw(st.integers(0, 9)) == 0:
